@@ -44,8 +44,6 @@ WFBody(fn, params, va, b) ==
        \* every order yields the same tokens, see PasteClass)
        /\ (b[i] = "##" /\ i > 2) => b[i - 2] # "#"
        /\ (b[i] = "##" /\ i < Len(b)) => b[i + 1] \notin {"#", "##"}
-  \* a lone # in an object-like macro is an ordinary token, but not one our projection can follow
-  /\ ~fn => \A i \in 1..Len(b) : b[i] # "#"
 
 Bodies(fn, params, va, Items, n) ==
   {b \in {Flat(f) : f \in SeqsUpTo(Items, n)} : WFBody(fn, params, va, b)}
@@ -76,7 +74,7 @@ StTexts == << <<"F","(","a",",","b",")">>, <<"F","(","O",",","O",")">>, <<"F","(
               <<"F","(","a",",",")">>, <<"F","(",",","2",")">>, <<"F","(","(","a",",","b",")",",","1",")">>,
               <<"F","(","\"O,F\"",",","'F'",")">>, <<"F","(","F","(","a",",","b",")",",","O",")">>,
               <<"F","(","1",",","2",")">>, <<"F","(","a","+","O",",","\"a\\n\"",")">>,
-              <<"F","(","F","(",",",")",",","1",")">> >>
+              <<"F","(","F","(",",",")",",","1",")">>, <<"F","(","'\"'","\"a\\n\"",",","'\"'",")">> >>
 StFam == Static(<< Obj("O", IF SizeSt > 1 THEN {<<>>, <<"a">>, <<"1">>, <<"a", "+", "1">>, <<"O">>, <<"(", "1", ",", "2", ")">>}
                                          ELSE {<<>>, <<"1">>, <<"O">>, <<"(", "1", ",", "2", ")">>}, 1),
                    Fn("F", <<"x", "y">>, {<<"x">>, <<"y">>, <<"#", "x">>, <<"#", "y">>, <<"x", "##", "y">>, <<"a", "##", "x">>,
@@ -143,6 +141,26 @@ PvFam == Static(<< Obj("O", {<<>>, <<"1">>}, 1),
                    Va("H", <<"x">>, Chains({<<"x">>, <<"__VA_ARGS__">>, <<"a">>, <<"__VA_OPT__", "(", "v", ")">>},
                                            {<<>>, <<"b">>}, {<<>>, <<"c">>}), 1) >>, PvTexts)
 
+\* op: operators next to parameters and arguments that begin / end with an operator character:
+\*     the tokens must stay apart (- -1 is not --1, a - > b is not a -> b, & & is not &&)
+OpBody == {"-", "+", "&", "|", "<", ">", "!", "~", "*", "[", "{", "="}
+OpArg  == <<"-", "+", "&", "|", "<", ">", "=", "!">>
+OpTextsOf(o) == << <<"F","(",o,"1",")">>, <<"F","(","a",o,")">>, <<"G","(","a",o,",",o,"b",")">>,
+                   <<"F","(","F","(",o,"a",")",")","O">> >>
+OpTexts == Flat([i \in 1..Len(OpArg) |-> OpTextsOf(OpArg[i])])
+OpFam == Static(<< Obj("O", {<<"#", "a">>, <<"a", "#">>, <<"-", "1">>}, 1),
+                   Fn("F", <<"x">>, {<<o, "x">> : o \in OpBody} \cup {<<"x", o>> : o \in OpBody} \cup {<<o, "x", o>> : o \in OpBody}, 1),
+                   Fn("G", <<"x", "y">>, {<<"x", o, "y">> : o \in OpBody}, 1) >>, OpTexts)
+
+\* br: commas inside braces, brackets and angle brackets separate arguments (only parentheses
+\*     protect a comma); digit separators in arguments
+BrTexts == << <<"G","(","{","1",",","2","}",")">>, <<"G","(","[","1",",","2","]",")">>, <<"G","(","<","1",",","2",">",")">>,
+              <<"G","(","{","a",",","(","b",",","c",")","}",")">>, <<"G","(","(","{","1",",","2","}",")",",","3",")">>,
+              <<"H","(","{","1",",","2","}",")">>, <<"H","(","[","a","]",",","{","b","}",")">>, <<"H","(","{","}",")">>,
+              <<"G","(","1'000",",","2'000",")">>, <<"H","(","1'000",")">>, <<"G","(","{","1",",","2",",","3","}",")">> >>
+BrFam == Static(<< Fn("G", <<"x", "y">>, {<<"x">>, <<"y">>, <<"#", "y">>, <<"|">>}, 2),
+                   Va("H", <<"x">>, {<<"x">>, <<"__VA_ARGS__">>, <<"#", "x">>, <<"[", "__VA_ARGS__", "]">>}, 2) >>, BrTexts)
+
 \* dy: #undef, redefinition, push_macro / pop_macro between uses
 DyLines == {DefLine("O", FALSE, <<>>, FALSE, b) : b \in {<<"1">>, <<"2">>, <<"O", "+", "1">>}}
            \cup {DefLine("F", TRUE, <<"x">>, FALSE, <<"x", "O">>)}
@@ -166,7 +184,7 @@ CdTabs == { Cmd(<<"1">>, <<"x", "+", "O">>), Cmd(<<"O", "+", "1">>, <<"#", "x">>
             [tab |-> [O |-> ObjD(<<"1">>), F |-> FnD(<<"x", "==", "O">>)], bare |-> {"O"}] }
 CdFam == Dyn(DyLines, DyTexts, CdTabs)
 
-Fam == [ fo |-> FoFam, st |-> StFam, va |-> VaFam, ch |-> ChFam, ne |-> NeFam, li1 |-> LiFam(1, 3), li2 |-> LiFam(4, 6), li3 |-> LiFam(7, 9), p3 |-> P3Fam, pv |-> PvFam,
+Fam == [ fo |-> FoFam, st |-> StFam, va |-> VaFam, ch |-> ChFam, ne |-> NeFam, li1 |-> LiFam(1, 3), li2 |-> LiFam(4, 6), li3 |-> LiFam(7, 9), p3 |-> P3Fam, pv |-> PvFam, op |-> OpFam, br |-> BrFam,
          dy |-> DyFam, cd |-> CdFam ]
 FreeLen(f) == IF f = "cd" THEN CdLen ELSE DynLen
 
